@@ -774,3 +774,25 @@ package compiler
 //@   ensures  top: object.Type.Kind != ast.KindStruct ==> result.Type.Kind == object.Type.Kind
 //@   loop 0:
 //@     invariant stored: $i >= 0 ==> object.Type.Struct.Fields[$i].Type == lastres("compiler.(*AnonymousStructsToNamed).processType", 0) && object.Type.Struct.Fields[$i].Type.Kind != ast.KindStruct
+//
+// rename_numeric_enum_values (TypeScript, Python: "enum member names ... never purely numeric"): the members
+// that are renamed are exactly those whose NAME parses as an integer (strconv.Atoi, a deterministic
+// function of the name) - whatever their type or value; the others keep their name; types and values are
+// kept. (That the new name itself is not numeric is string reasoning and is not claimed.)
+//@ spec numericName(n) = extern("strconv.Atoi", 1, "error", n) == nil
+//@ func (*RenameNumericEnumValues).enumMemberNameFromValue
+//@   pure
+//@   modifies nothing
+//
+//@ func (*RenameNumericEnumValues).processEnum
+//@   property C06
+//@   requires pass != nil && def.Kind == ast.KindEnum
+//@   modifies def.Enum.Values[*]
+//@   ensures  same: result.0 == def
+//@   ensures  renamed: forall v: int :: 0 <= v && v < len(def.Enum.Values) && old(numericName(def.Enum.Values[v].Name)) ==> def.Enum.Values[v].Name == call("compiler.(*RenameNumericEnumValues).enumMemberNameFromValue", pass, old(def.Enum.Values[v]))
+//@   ensures  kept: forall v: int :: 0 <= v && v < len(def.Enum.Values) ==> def.Enum.Values[v].Type == old(def.Enum.Values[v].Type) && def.Enum.Values[v].Value == old(def.Enum.Values[v].Value) && (!old(numericName(def.Enum.Values[v].Name)) ==> def.Enum.Values[v].Name == old(def.Enum.Values[v].Name))
+//@   ensures  changed: result.1 == (exists v: int :: 0 <= v && v < len(def.Enum.Values) && old(numericName(def.Enum.Values[v].Name)))
+//@   loop 0:
+//@     invariant done: forall v: int :: 0 <= v && v <= $i ==> def.Enum.Values[v].Type == old(def.Enum.Values[v].Type) && def.Enum.Values[v].Value == old(def.Enum.Values[v].Value) && (old(numericName(def.Enum.Values[v].Name)) ==> def.Enum.Values[v].Name == call("compiler.(*RenameNumericEnumValues).enumMemberNameFromValue", pass, old(def.Enum.Values[v]))) && (!old(numericName(def.Enum.Values[v].Name)) ==> def.Enum.Values[v].Name == old(def.Enum.Values[v].Name))
+//@     invariant todo: forall v: int :: $i < v && v < len(def.Enum.Values) ==> def.Enum.Values[v] == old(def.Enum.Values[v])
+//@     invariant changed: changed == (exists v: int :: 0 <= v && v <= $i && old(numericName(def.Enum.Values[v].Name)))
